@@ -16,6 +16,7 @@
 //! pointers: undefined behaviour, possibly heap corruption): the harness compares cursor and size with the real storage
 //! length (hook accessor `verif_global_state`) and answers Fr.  Reference counts after retain / release come from the H2
 //! hook of vm/heap.rs, which both implementations call.
+use mimium_lang::interner::{ToSymbol, TypeNodeId};
 use mimium_lang::plugin::get_builtin_fns_as_plugins;
 use mimium_lang::runtime::primitives::RuntimePrimitives;
 use mimium_lang::runtime::vm::{self, FuncProto, Instruction, Machine, Program, StateOffset};
@@ -53,6 +54,93 @@ enum Op {
     Sr,
     TraitGet(Val, u64, u64),
     TraitSet(Val, u64, Vec<Val>, u64),
+    UsClone(Vec<Val>, u64),
+    UsRelease(Vec<Val>, u64),
+}
+
+/// type table entries:  N<k> | B(ty) | A<name> | S<name>(var/var/..) | T(ty/ty/..)   var := - | ty
+struct TyP<'a> {
+    s: &'a [u8],
+    i: usize,
+}
+impl TyP<'_> {
+    fn peek(&self) -> u8 {
+        if self.i < self.s.len() { self.s[self.i] } else { 0 }
+    }
+    fn eat(&mut self, c: u8) -> Result<(), String> {
+        if self.peek() == c {
+            self.i += 1;
+            Ok(())
+        } else {
+            Err(format!("type: expected {} at {}", c as char, self.i))
+        }
+    }
+    fn num(&mut self) -> Result<u64, String> {
+        let st = self.i;
+        while self.peek().is_ascii_digit() {
+            self.i += 1;
+        }
+        std::str::from_utf8(&self.s[st..self.i]).unwrap().parse::<u64>().map_err(|e| format!("type: {e} at {st}"))
+    }
+    fn ty(&mut self) -> Result<TypeNodeId, String> {
+        use mimium_lang::types::{PType, Type};
+        let c = self.peek();
+        self.i += 1;
+        Ok(match c {
+            b'N' => match self.num()? {
+                0 => Type::Primitive(PType::Unit).into_id(),
+                1 => Type::Primitive(PType::Numeric).into_id(),
+                n => Type::Tuple((0..n).map(|_| Type::Primitive(PType::Numeric).into_id()).collect()).into_id(),
+            },
+            b'A' => Type::TypeAlias(format!("s{}", self.num()?).to_symbol()).into_id(),
+            b'B' => {
+                self.eat(b'(')?;
+                let t = self.ty()?;
+                self.eat(b')')?;
+                Type::Boxed(t).into_id()
+            }
+            b'S' => {
+                let name = format!("s{}", self.num()?).to_symbol();
+                self.eat(b'(')?;
+                let mut variants = vec![];
+                if self.peek() != b')' {
+                    loop {
+                        let v = if self.peek() == b'-' {
+                            self.i += 1;
+                            None
+                        } else {
+                            Some(self.ty()?)
+                        };
+                        variants.push((format!("c{}", variants.len()).to_symbol(), v));
+                        if self.peek() == b'/' {
+                            self.i += 1;
+                        } else {
+                            break;
+                        }
+                    }
+                }
+                self.eat(b')')?;
+                Type::UserSum { name, variants }.into_id()
+            }
+            b'T' => {
+                self.eat(b'(')?;
+                let mut l = vec![];
+                if self.peek() != b')' {
+                    loop {
+                        l.push(self.ty()?);
+                        if self.peek() == b'/' {
+                            self.i += 1;
+                        } else {
+                            break;
+                        }
+                    }
+                }
+                self.eat(b')')?;
+                Type::Tuple(l).into_id()
+            }
+            _ => return Err(format!("type: bad character at {}", self.i - 1)),
+        })
+    }
 }
 
 fn hex(s: &str) -> Result<u64, String> {
@@ -102,6 +190,8 @@ fn pop(s: &str) -> Result<Op, String> {
         ("SR", 1) => Op::Sr,
         ("TG", 4) => Op::TraitGet(pval(p[1])?, hex(p[2])?, pu(p[3])?),
         ("TS", 5) => Op::TraitSet(pval(p[1])?, hex(p[2])?, pvals(p[3])?, pu(p[4])?),
+        ("UC", 3) => Op::UsClone(pvals(p[1])?, pu(p[2])?),
+        ("UR", 3) => Op::UsRelease(pvals(p[1])?, pu(p[2])?),
         _ => return Err(format!("bad operation {s}")),
     })
 }
@@ -399,6 +489,25 @@ impl VmSide {
                 self.m.array_set_elem(raw, *idx, &src, *esz);
                 "u".into()
             }
+            Op::UsClone(vs, ty) | Op::UsRelease(vs, ty) => {
+                let mut value = t.all(vs);
+                let is_clone = matches!(op, Op::UsClone(..));
+                if *ty as usize >= self.m.prog.type_table.len() {
+                    return "Fs".into(); // expect("invalid type id")
+                }
+                if instr {
+                    let n = value.len() as u16;
+                    let i = if is_clone { Instruction::CloneUserSum(0, n, *ty as u8) } else { Instruction::ReleaseUserSum(0, n, *ty as u8) };
+                    self.exec(vec![i, Instruction::Return0], &value, 0);
+                } else if is_clone {
+                    let n = value.len() as u64;
+                    self.m.usersum_clone(&mut value, n, *ty as u8);
+                } else {
+                    let n = value.len() as u64;
+                    self.m.usersum_release(&mut value, n, *ty as u8);
+                }
+                "u".into()
+            }
         }
     }
 }
@@ -444,6 +553,8 @@ fn imports() -> Vec<(&'static str, &'static str, Vec<u8>, Vec<u8>)> {
         ("runtime", "box_clone", vec![I64], vec![]),
         ("runtime", "box_release", vec![I64], vec![]),
         ("runtime", "box_store", vec![I64, I32, I32], vec![]),
+        ("runtime", "usersum_clone", vec![I32, I32, I32], vec![]),
+        ("runtime", "usersum_release", vec![I32, I32, I32], vec![]),
         ("runtime", "state_push", vec![I64], vec![]),
         ("runtime", "state_pop", vec![I64], vec![]),
         ("runtime", "state_get", vec![I32, I32], vec![]),
@@ -645,6 +756,15 @@ impl WasmSide {
             Op::Now => words(&self.call("runtime_get_now", &[])),
             Op::Sr => words(&self.call("runtime_get_samplerate", &[])),
             Op::TraitGet(..) | Op::TraitSet(..) => "-".into(),
+            // wasmgen.rs I::CloneUserSum / I::ReleaseUserSum: (value_ptr placeholder 0, size, type_id 0)
+            Op::UsClone(vs, _) => {
+                self.call("usersum_clone", &[0, vs.len() as u64, 0]);
+                "u".into()
+            }
+            Op::UsRelease(vs, _) => {
+                self.call("usersum_release", &[0, vs.len() as u64, 0]);
+                "u".into()
+            }
         }
     }
 }
@@ -671,6 +791,7 @@ fn run_case(line: &str, precompiled: &[u8]) -> Result<String, String> {
     let now = pu(kv(parts.next().unwrap_or(""), "N")?)?;
     let _sr = kv(parts.next().unwrap_or(""), "R")?;
     let mut instr = false;
+    let mut types: Vec<TypeNodeId> = vec![];
     let mut ops = vec![];
     for p in parts {
         if p.is_empty() {
@@ -678,6 +799,13 @@ fn run_case(line: &str, precompiled: &[u8]) -> Result<String, String> {
         }
         if let Some(m) = p.strip_prefix("M=") {
             instr = m == "I";
+            continue;
+        }
+        if let Some(y) = p.strip_prefix("Y=") {
+            for t in y.split('~').filter(|t| !t.is_empty()) {
+                let mut tp = TyP { s: t.as_bytes(), i: 0 };
+                types.push(tp.ty()?);
+            }
             continue;
         }
         ops.push(pop(p)?);
@@ -690,6 +818,7 @@ fn run_case(line: &str, precompiled: &[u8]) -> Result<String, String> {
     match vm_res {
         Err(m) => vout.push(format!("F?new:{}", m.replace(['|', ';', '\n'], " "))),
         Ok(mut v) => {
+            v.m.prog.type_table = types.clone();
             let mut t = Tabs::default();
             for op in &ops {
                 match guarded(|| v.step(&t, op)) {
